@@ -317,6 +317,9 @@ func (rr *renderer) renderList(f *fileBuf, dirs []*Dir, depth int) {
 				f.spans = append(f.spans, Span{code, bb, be})
 			}
 		}
+		if d.Kw == "Description" && d.BodyKind == "" {
+			f.afterText = true // a Description without text (planted fault): a comment written next would become its text
+		}
 		// children
 		rr.renderList(f, d.Children, depth+1)
 		if explicit {
